@@ -9,7 +9,7 @@ from ..loader import AnalysisError, norm, own_nodes
 from ..pairing import bracket_rule, contains_call, method_call
 from ..report import RuleResult
 from ..typestate import typestate_rule
-from .common import TRANSPORT_ERR, closure_rule, policy_fsm
+from .common import TRANSPORT_ERR, borrow, closure_rule, policy_fsm
 
 META = {
     "explanation": (
@@ -157,4 +157,51 @@ def check(ctx: Ctx) -> list[RuleResult]:
                 if not all(ea.h.is_sub(x, TRANSPORT_ERR) for x in cls):
                     r5.fail(f"{cl.short}:wrong-exception-class", cl.loc(c), f"connection_lost resolves the future with {cls}, not a TransportError")
     out.append(r5)
+
+    # ---- R6 ---------------------------------------------------------------------------
+    r6 = RuleResult("R6", "no blocking primitive on the event-loop thread", "the FSM's queue is only used through put_nowait/get_nowait; its lock is never held across an await", min_instances=2)
+    for f in funcs:
+        for n in own_nodes(f.node):
+            if isinstance(n, ast.Call) and isinstance(n.func, ast.Attribute) and "_que" in norm(n.func.value) and n.func.attr in ("put", "get", "join", "put_nowait", "get_nowait"):
+                r6.instances += 1
+                r6.nontrivial += 1
+                blocking = n.func.attr in ("put", "get", "join") and not any(k.arg == "block" and isinstance(k.value, ast.Constant) and k.value.value is False for k in n.keywords)
+                if blocking:
+                    r6.fail(f"{f.short}:blocking-queue-{n.func.attr}", f.loc(n), f"`{norm(n)[:60]}` blocks the calling thread when the queue is full/empty: called on the event-loop thread it stops every timer, callback and caller for ever")
+                else:
+                    r6.ok({"site": f"{f.short}: {norm(n.func)}"})
+    cbf = repo.func(f"{MOD}.ProtocolContext._check_buffer_for_cmd")
+    r6.instances += 1
+    r6.nontrivial += 1
+    if cbf.is_async or any(isinstance(n, ast.Await) for n in own_nodes(cbf.node)):
+        r6.fail(f"{cbf.short}:await-under-lock", cbf.loc(), "_check_buffer_for_cmd became a coroutine / awaits: the threading lock could be held across a suspension")
+    else:
+        r6.ok({"_check_buffer_for_cmd": "synchronous (the threading lock is never held across an await)"})
+    out.append(r6)
+
+    # ---- R7 ---------------------------------------------------------------------------
+    r7 = RuleResult("R7", "the expiry timer is re-armed on every way into a sending state", "in effect_state the timer-arming statement is reachable on both edges of `timed_out`", min_instances=1)
+    eff = repo.func(f"{MOD}.ProtocolContext.set_state.effect_state")
+    cfg7 = ctx.plain_cfg(eff)
+    arm = [x for x in cfg7.nodes if x.kind == "stmt" and isinstance(x.ast, ast.Assign) and norm(x.ast.targets[0]) == "self._expiry_timer" and "create_task" in norm(x.ast.value)]
+    tt = [x for x in cfg7.nodes if x.kind == "test" and norm(x.ast) == "timed_out"]
+    if not arm or not tt:
+        raise AnalysisError("effect_state: timer arming / timed_out test not found")
+    r7.instances += 1
+    r7.nontrivial += 1
+    ok7 = True
+    for lab in ("true", "false"):
+        starts = [y for y, l2 in cfg7.succ[tt[0].id] if l2 == lab]
+        reach = set()
+        for s0 in starts:
+            reach |= cfg7.reachable_from(s0)
+        if not any(a.id in reach for a in arm):
+            ok7 = False
+            r7.fail(f"{eff.short}:timer-not-armed-after-{'retransmit' if lab == 'true' else 'first-send'}", eff.loc(tt[0].ast), f"on the `timed_out` == {lab} path effect_state can no longer reach the statement that arms the expiry timer: a sending state would wait for an echo/reply with no timer running")
+    if ok7:
+        r7.ok({"effect_state": "the expiry timer can be armed after a first send and after a retransmission"})
+    out.append(r7)
+
+    borrow(ctx, out, "c07", ["R4"], "the future, command and QoS of the in-flight entry are only (re)bound together: is_sending's invariant")
+    borrow(ctx, out, "c08", ["R1", "R2", "R4", "R5"], "retry gate, timer cancellation, single dequeue gate and orderable queue entries keep the FSM's self-checks from tripping")
     return out
